@@ -405,6 +405,11 @@ func (s *Session) reconnectDownedHosts(intv time.Duration) {
 				if h.IsUp() {
 					continue
 				}
+				if s.cfg.filterHost(h) {
+					// a contact point the host filter rejects stays in the ring
+					// until the next refresh; it must not get a pool
+					continue
+				}
 				// we let the pool call handleNodeConnected to change the host state
 				s.pool.addHost(h)
 			}
